@@ -6,7 +6,10 @@
 #include "alloc.h"
 #include "stdio_model.h"
 #include "cstring_model.h"
-#include <plibsys.h>
+#include <pmem.h>
+#include <plist.h>
+#include <pstring.h>
+#include <pinifile.h>
 
 #ifndef MAXLINE
 #define MAXLINE PLIBSYS_VERIF_INI_MAX_LINE
